@@ -112,11 +112,16 @@ class Ctx:
         self.notes = []
         self.t0 = time.monotonic()
         self.budget_s = budget_s
+        self.c0 = time.process_time()
         self.inconclusive = []
 
     # -- budgets
     def expired(self, frac=1.0):
-        return time.monotonic() - self.t0 > self.budget_s * frac
+        # the budget is CPU time of this shard process (so that a loaded machine explores as much as an idle one), with a wall
+        # clock ceiling well below the runner's kill time
+        cpu = time.process_time() - self.c0
+        wall = time.monotonic() - self.t0
+        return cpu > self.budget_s * frac or wall > 2.2 * self.budget_s * frac
 
     def time_left(self):
         return self.budget_s - (time.monotonic() - self.t0)
